@@ -14,7 +14,7 @@ use rsdd::builder::decision_nnf::{DecisionNNFBuilder, SemanticDecisionNNFBuilder
 use rsdd::builder::sdd::CompressionSddBuilder;
 use rsdd::builder::BottomUpBuilder;
 use rsdd::constants::primes;
-use rsdd::repr::{BddPtr, Cnf, DDNNFPtr, Literal, SddPtr, VTree, VarLabel, VarOrder, WmcParams};
+use rsdd::repr::{create_semantic_hash_map, BddPtr, Cnf, DDNNFPtr, Literal, SddPtr, VTree, VarLabel, VarOrder, WmcParams};
 use rsdd::util::semirings::{FiniteField, RealSemiring};
 use serde_json::{json, Value};
 use std::collections::HashMap;
@@ -139,7 +139,67 @@ fn clauses_of(c: &Value) -> Vec<Vec<Literal>> {
     }).collect()).unwrap_or_default()).collect()).unwrap_or_default()
 }
 
+/// C11: the semantic hash (the count under the library's own hash weights, low + high == 1 in the field) is the same for
+/// every representation of one function -- BDDs under two orders, decision-DNNFs of both stores, an SDD --, equals the
+/// explicit sum over the models, a negation hashes to one minus the hash, and the hash cached on the nodes equals a recomputed one
+fn run_semhash<const Q: u128>(c: &Value) -> CaseResult {
+    let nv = c["nvars"].as_u64().unwrap_or(3) as usize;
+    let clauses = clauses_of(c);
+    let cnf = Cnf::new(&clauses);
+    let nm = 1usize << nv;
+    let map = create_semantic_hash_map::<Q>(nv);
+    let wts: Vec<(u128, u128)> = (0..nv).map(|i| { let (l, h) = map.var_weight(VarLabel::new(i as u64)); (l.value(), h.value()) }).collect();
+    for (i, (l, h)) in wts.iter().enumerate() { if (l + h) % Q != 1 { return Err(format!("hash weights of variable {i} do not sum to one: {l} + {h} mod {Q}")); } }
+    let tt: Vec<bool> = (0..nm).map(|m| { let a = asg(m, nv); clauses.iter().all(|cl| cl.iter().any(|l| a[l.label().value() as usize] == l.polarity())) }).collect();
+    let mut want = 0u128;
+    for m in 0..nm { if tt[m] { let mut x = 1u128; for i in 0..nv { x = mulmod(x, if (m >> i) & 1 == 1 { wts[i].1 } else { wts[i].0 }, Q); } want = (want + x) % Q; } }
+    let ords: Vec<Vec<usize>> = vec![
+        c["order"].as_array().map(|a| a.iter().map(|v| v.as_u64().unwrap_or(0) as usize).collect()).unwrap_or_else(|| (0..nv).collect()),
+        (0..nv).rev().collect(), (0..nv).collect()];
+    let mut seen: Vec<(String, u128)> = vec![];
+    for (k, ord) in ords.iter().enumerate() {
+        let order: Vec<VarLabel> = ord.iter().map(|v| VarLabel::new(*v as u64)).collect();
+        let vo = VarOrder::new(&order);
+        let b = RobddBuilder::<AllIteTable<BddPtr>>::new(vo.clone());
+        let f = b.compile_cnf(&cnf);
+        let h = f.semantic_hash(&map).value();
+        seen.push((format!("BDD under order {ord:?}"), h));
+        let hn = b.negate(f).semantic_hash(&map).value();
+        if hn != (Q + 1 - h) % Q { return Err(format!("BDD under order {ord:?}: the negation hashes to {hn}, one minus the hash {h} is {}", (Q + 1 - h) % Q)); }
+        let hc = f.cached_semantic_hash(&vo, &map).value();
+        if hc != h { return Err(format!("BDD under order {ord:?}: cached hash {hc}, recomputed hash {h}")); }
+        let hc2 = f.cached_semantic_hash(&vo, &map).value();
+        if hc2 != h { return Err(format!("BDD under order {ord:?}: cached hash read back as {hc2}, recomputed hash {h}")); }
+        let hcn = b.negate(f).cached_semantic_hash(&vo, &map).value();
+        if hcn != (Q + 1 - h) % Q { return Err(format!("BDD under order {ord:?}: cached hash of the negation {hcn}, one minus the hash is {}", (Q + 1 - h) % Q)); }
+        if k == 0 {
+            let d = StandardDecisionNNFBuilder::new(VarOrder::new(&order));
+            let dd = d.compile_cnf_topdown(&cnf);
+            seen.push((format!("decision-DNNF (standard store) under order {ord:?}"), dd.semantic_hash(&map).value()));
+            let hn = dd.neg().semantic_hash(&map).value();
+            let hd = dd.semantic_hash(&map).value();
+            if hn != (Q + 1 - hd) % Q { return Err(format!("decision-DNNF: the negation hashes to {hn}, one minus the hash {hd} is {}", (Q + 1 - hd) % Q)); }
+        }
+    }
+    let sb = CompressionSddBuilder::new(vtree(&c["vtree"]));
+    let sf = sb.compile_cnf(&cnf);
+    seen.push((format!("SDD under vtree {}", c["vtree"]), sf.semantic_hash(&map).value()));
+    let shn = sb.negate(sf).semantic_hash(&map).value();
+    for (what, h) in seen.iter() {
+        if *h != want { return Err(format!("{what}: semantic hash {h}, the sum over the models under the hash weights is {want} (prime {Q})")); }
+    }
+    if shn != (Q + 1 - want) % Q { return Err(format!("SDD: the negation hashes to {shn}, one minus the hash is {}", (Q + 1 - want) % Q)); }
+    Ok(())
+}
+fn mulmod(a: u128, b: u128, q: u128) -> u128 {
+    // q < 2^64 here, so the product fits
+    (a % q) * (b % q) % q
+}
+
 pub fn run(c: &Value) -> CaseResult {
+    if c["kind"].as_str() == Some("semhash") {
+        return match c["prime"].as_u64().unwrap_or(0) { 0 => run_semhash::<{ primes::U32_TINY }>(c), 1 => run_semhash::<{ primes::U32_SMALL }>(c), _ => run_semhash::<{ primes::U64_LARGEST }>(c) };
+    }
     let nv = c["nvars"].as_u64().unwrap_or(3) as usize;
     let clauses = clauses_of(c);
     let cnf = Cnf::new(&clauses);
@@ -220,6 +280,9 @@ pub fn candidates(seed: u64) -> Vec<Value> {
         let dy: Vec<u64> = (0..nv).map(|_| nx(17)).collect();
         let kind = ["bdd", "dnnf", "sdd"][(t / 3 % 3) as usize];
         let vt = match nv { 3 => vt3[nx(4) as usize].clone(), 4 => vt4[nx(5) as usize].clone(), _ => vt5[nx(3) as usize].clone() };
+        if t % 4 == 0 {
+            out.push(json!({"case": "wmc", "kind": "semhash", "prime": t / 4 % 3, "nvars": nv, "cnf": cnf.clone(), "order": order.clone(), "vtree": vt.clone()}));
+        }
         out.push(json!({"case": "wmc", "kind": kind, "nvars": nv, "cnf": cnf, "order": order, "vtree": vt, "h": h, "l": l, "dy": dy,
                         "extra": nx(nv as u64), "extra_pol": nx(2) == 0}));
     }
